@@ -1,1 +1,206 @@
 //! access rig (verification scaffolding, cfg(rustdds_verif))
+//!
+//! Drives the REAL `AccessControlBuiltin`, the real permissions / governance XML
+//! parsers and the real S/MIME verification (`SignedDocument`) and exposes
+//! plain-data methods for the external harness (property C18).
+//!
+//! Two entrances:
+//!  * `install_unsigned`  – below the signature check (cfg accessor
+//!    `verif_install_unsigned`), for the decision function;
+//!  * `validate_local`    – the public `validate_local_permissions` with `file:`
+//!    URIs, i.e. S/MIME parse + signature verification + parsers.
+//! A panic of the code under test is reported as data ("panic"), never
+//! propagated.
+
+use std::{
+  panic::{catch_unwind, AssertUnwindSafe},
+  time::Instant,
+};
+
+use crate::{
+  dds::qos::{policy, QosPolicies, QosPolicyBuilder},
+  discovery::{
+    sedp_messages::{
+      DiscoveredReaderData, DiscoveredWriterData, PublicationBuiltinTopicData, ReaderProxy,
+      SubscriptionBuiltinTopicData, TopicBuiltinTopicData, WriterProxy,
+    },
+  },
+  security::{
+    access_control::{
+      access_control_builtin::{s_mime_config_parser::verif_verify_blob, AccessControlBuiltin},
+      LocalEntityAccessControl, ParticipantAccessControl, RemoteEntityAccessControl,
+    },
+    authentication::authentication_builtin::AuthenticationBuiltin,
+    types::Property,
+    PublicationBuiltinTopicDataSecure, SubscriptionBuiltinTopicDataSecure,
+  },
+  structure::guid::{EntityKind, GUID},
+};
+
+pub struct AccessRig {
+  ac: AccessControlBuiltin,
+  auth: AuthenticationBuiltin,
+  next_identity: u32,
+}
+
+impl Default for AccessRig {
+  fn default() -> Self {
+    Self::new()
+  }
+}
+
+fn class(r: std::thread::Result<crate::security::SecurityResult<bool>>) -> (&'static str, String) {
+  match r {
+    Ok(Ok(true)) => ("allow", String::new()),
+    Ok(Ok(false)) => ("deny", String::new()),
+    Ok(Err(e)) => ("error", format!("{e:?}")),
+    Err(_) => ("panic", String::new()),
+  }
+}
+
+impl AccessRig {
+  pub fn new() -> Self {
+    Self {
+      ac: AccessControlBuiltin::new(),
+      auth: AuthenticationBuiltin::new(),
+      next_identity: 1,
+    }
+  }
+
+  /// Real parsers + registration, no signature. Ok((handle, valid grant exists)).
+  pub fn install_unsigned(
+    &mut self,
+    subject: &str,
+    permissions_xml: &str,
+    governance_xml: &str,
+    domain_id: u16,
+  ) -> Result<(u32, bool), String> {
+    let ac = &mut self.ac;
+    match catch_unwind(AssertUnwindSafe(|| {
+      ac.verif_install_unsigned(subject, permissions_xml, governance_xml, domain_id)
+    })) {
+      Ok(r) => r,
+      Err(_) => Err("panic".to_string()),
+    }
+  }
+
+  /// The public validate_local_permissions, documents and certificates given as files.
+  pub fn validate_local(
+    &mut self,
+    permissions_ca_cert: &str,
+    governance_p7s: &str,
+    permissions_p7s: &str,
+    identity_cert: &str,
+    domain_id: u16,
+  ) -> Result<u32, String> {
+    let prop = |name: &str, path: &str| Property {
+      name: name.to_string(),
+      value: format!("file:{path}"),
+      propagate: false,
+    };
+    let qos: QosPolicies = QosPolicyBuilder::new()
+      .property(policy::Property {
+        value: vec![
+          prop("dds.sec.access.permissions_ca", permissions_ca_cert),
+          prop("dds.sec.access.governance", governance_p7s),
+          prop("dds.sec.access.permissions", permissions_p7s),
+          prop("dds.sec.auth.identity_certificate", identity_cert),
+        ],
+        binary_value: vec![],
+      })
+      .build();
+    let id = self.next_identity;
+    self.next_identity += 1;
+    let (ac, auth) = (&mut self.ac, &self.auth);
+    match catch_unwind(AssertUnwindSafe(|| {
+      ac.validate_local_permissions(auth, id, domain_id, &qos)
+    })) {
+      Ok(Ok(h)) => Ok(h),
+      Ok(Err(e)) => Err(format!("{e:?}")),
+      Err(_) => Err("panic".to_string()),
+    }
+  }
+
+  pub fn has_grant(&self, handle: u32) -> bool {
+    self.ac.verif_has_grant(handle)
+  }
+
+  /// One access decision. `op`:
+  ///  create_writer | create_reader | create_topic   public check_create_* (no partitions)
+  ///  remote_writer | remote_reader | remote_topic   public check_remote_* (no partitions)
+  ///  entity_writer | entity_reader | entity_topic   check_entity with the given partitions
+  /// Returns (class, detail) with class in allow | deny | error | panic.
+  pub fn check(
+    &self,
+    handle: u32,
+    op: &str,
+    domain_id: u16,
+    topic: &str,
+    partitions: &[String],
+  ) -> (&'static str, String) {
+    let ac = &self.ac;
+    let qos = QosPolicies::qos_none();
+    let parts: Vec<&str> = partitions.iter().map(|s| s.as_str()).collect();
+    let t = topic.to_string();
+    let r = catch_unwind(AssertUnwindSafe(|| match op {
+      "create_writer" => ac.check_create_datawriter(handle, domain_id, t, &qos),
+      "create_reader" => ac.check_create_datareader(handle, domain_id, t, &qos),
+      "create_topic" => ac.check_create_topic(handle, domain_id, t, &qos),
+      "remote_writer" => {
+        let guid = GUID::dummy_test_guid(EntityKind::WRITER_WITH_KEY_USER_DEFINED);
+        let d = PublicationBuiltinTopicDataSecure {
+          discovered_writer_data: DiscoveredWriterData {
+            last_updated: Instant::now(),
+            writer_proxy: WriterProxy::new(guid, vec![], vec![]),
+            publication_topic_data: PublicationBuiltinTopicData::new(
+              guid,
+              None,
+              t,
+              "T".to_string(),
+              None,
+            ),
+          },
+          data_tags: None,
+        };
+        ac.check_remote_datawriter(handle, domain_id, &d)
+      }
+      "remote_reader" => {
+        let guid = GUID::dummy_test_guid(EntityKind::READER_WITH_KEY_USER_DEFINED);
+        let d = SubscriptionBuiltinTopicDataSecure {
+          discovered_reader_data: DiscoveredReaderData {
+            reader_proxy: ReaderProxy::new(guid, false, vec![], vec![]),
+            subscription_topic_data: SubscriptionBuiltinTopicData::new(
+              guid,
+              None,
+              t,
+              "T".to_string(),
+              &qos,
+              None,
+            ),
+            content_filter: None,
+          },
+          data_tags: None,
+        };
+        ac.check_remote_datareader(handle, domain_id, &d)
+          .map(|(passed, _relay_only)| passed)
+      }
+      "remote_topic" => {
+        let d = TopicBuiltinTopicData::new(None, t, "T".to_string(), &qos);
+        ac.check_remote_topic(handle, domain_id, &d)
+      }
+      "entity_writer" => ac.verif_check_entity(handle, domain_id, &t, &parts, 0),
+      "entity_reader" => ac.verif_check_entity(handle, domain_id, &t, &parts, 1),
+      _ => ac.verif_check_entity(handle, domain_id, &t, &parts, 2),
+    }));
+    class(r)
+  }
+
+  /// S/MIME parse + signature verification against the certificate `ca_pem`.
+  /// Ok(verified content bytes) | Err("refused: .." | "panic" | "ca: ..")
+  pub fn verify_blob(blob: &[u8], ca_pem: &[u8]) -> Result<Vec<u8>, String> {
+    match catch_unwind(AssertUnwindSafe(|| verif_verify_blob(blob, ca_pem))) {
+      Ok(r) => r,
+      Err(_) => Err("panic".to_string()),
+    }
+  }
+}
